@@ -123,6 +123,12 @@ class GotranPythonCodePrinter(PythonCodePrinter):
         lhs, rhs = expr.args
         return f"({self._print(lhs)} == {self._print(rhs)})"
 
+    def _print_Mod(self, expr):
+        # ``a % b`` printed without parentheses is re-associated by the surrounding
+        # expression (``x % 1/4``, ``-0.5*(2*x) % 1``); numpy.mod has the same sign convention
+        a, b = expr.args
+        return f"numpy.mod({self._print(a)}, {self._print(b)})"
+
     def _print_sign(self, e):
         return "(0.0 if ({e} == 0) else {f}(1, {e}))".format(
             f=self._module_format("numpy.copysign"), e=self._print(e.args[0])
